@@ -86,28 +86,42 @@ def periods_for(draw, tpl, anchor):
 # --------------------------------------------------------------------------
 @st.composite
 def user_config(draw, family):
+    """handler variant (module-level functions, or bound methods of a Codec
+    object with the signatures FileHandler supports), options from those the
+    variant's reader / writer accept, whether the writer refuses 'poison'
+    data, whether the handler has an info method"""
+    from vp.oracle.c11_model import USER_VARIANTS
     if family == "pickle":
-        return {
-            "variant": "pickle",
+        variant = draw(st.sampled_from(["pickle", "method-pickle",
+                                        "method-pickle"]))
+        cfg = {
+            "variant": variant,
             "read_args": draw(st.sampled_from([{}, {}, {"key": "k"}])),
             "write_args": draw(st.sampled_from([{}, {}, {"protocol": 2},
                                                 {"protocol": 4}])),
         }
-    variant = draw(st.sampled_from(["bytes-args", "bytes-args",
-                                    "bytes-plain"]))
-    if variant == "bytes-plain":
-        return {"variant": variant, "read_args": {}, "write_args": {}}
-    ra = {}
-    if draw(st.integers(0, 2)) == 0:
-        ra["strip"] = draw(st.integers(1, 3))
-    if draw(st.integers(0, 3)) == 0:
-        ra["upper"] = True
-    wa = {}
-    if draw(st.integers(0, 2)) == 0:
-        wa["header"] = draw(st.sampled_from([b"HD", b"#v1\n", b"\x00"]))
-    if draw(st.integers(0, 3)) == 0:
-        wa["rev"] = True
-    return {"variant": variant, "read_args": ra, "write_args": wa}
+    else:
+        variant = draw(st.sampled_from([
+            "bytes-args", "bytes-plain", "method-plain", "method-one",
+            "method-one", "method-two", "method-kw", "method-kw",
+            "method-kw-one", "method-one-kw"]))
+        r_opts, w_opts = USER_VARIANTS[variant][2:]
+        ra, wa = {}, {}
+        if "strip" in r_opts and draw(st.integers(0, 1)) == 0:
+            ra["strip"] = draw(st.integers(1, 3))
+        if "upper" in r_opts and draw(st.integers(0, 2)) == 0:
+            ra["upper"] = True
+        if "header" in w_opts and draw(st.integers(0, 1)) == 0:
+            wa["header"] = draw(st.sampled_from([b"HD", b"#v1\n", b"\x00"]))
+        if "rev" in w_opts and draw(st.integers(0, 2)) == 0:
+            wa["rev"] = True
+        cfg = {"variant": variant, "read_args": ra, "write_args": wa}
+    cfg["refuse"] = False
+    cfg["info"] = None
+    if variant.startswith("method-"):
+        cfg["refuse"] = draw(st.booleans())
+        cfg["info"] = draw(st.sampled_from([None, None, "info", "info_kw"]))
+    return cfg
 
 
 @st.composite
@@ -200,12 +214,17 @@ JSONISH = st.recursive(
 
 
 def user_contents(family):
+    # (data with \xee / "POISON" cannot be stored by a refusing writer)
     if family == "pickle":
-        return JSONISH.map(lambda x: {"payload": x})
+        return st.one_of(
+            JSONISH.map(lambda x: {"payload": x}),
+            JSONISH.map(lambda x: {"payload": x}),
+            JSONISH.map(lambda x: {"payload": x, "flag": "POISON"}))
     return st.one_of(
         st.binary(min_size=0, max_size=40),
         st.sampled_from([b"", b"\x00", b"a\nb\r\n", b"abc" * 700,
-                         b"\x1f\x8b\x08\x00gzip-like", b"PK\x03\x04zip"]))
+                         b"\x1f\x8b\x08\x00gzip-like", b"PK\x03\x04zip"]),
+        st.sampled_from([b"\xeepoison", b"ab\xee", b"\xee" * 3 + b"xyz"]))
 
 
 GRID = [0.0, -0.0, 1.0, -1.5, 0.125, 2.5, 1e10, -3.0e-5, 65504.0]
@@ -458,6 +477,11 @@ def histories(draw, family, max_ops=12):
     user = specs[0]["template"]["user"]
     n_fs = len(specs)
     pool = draw(st.lists(contents(family), min_size=2, max_size=4))
+    if family in ("bytes", "pickle") and draw(st.integers(0, 2)) > 0:
+        # something a refusing writer cannot store
+        pool.insert(draw(st.integers(0, len(pool))),
+                    draw(st.sampled_from([b"\xeepoison", b"ab\xee"]))
+                    if family == "bytes" else {"payload": 1, "flag": "POISON"})
     bounds = sorted({p[k] for s in specs for p in s["periods"]
                      for k in ("s", "e")})
 
@@ -490,9 +514,9 @@ def histories(draw, family, max_ops=12):
         elif what == "read":
             ops.append({
                 "op": "read", "fs": draw(st.integers(0, n_fs - 1)),
-                "how": draw(st.sampled_from(["read", "read-info", "item",
-                                             "slice", "collect", "icollect",
-                                             "collect-files"])),
+                "how": draw(st.sampled_from(["read", "read-info", "read-args",
+                                             "item", "slice", "collect",
+                                             "icollect", "collect-files"])),
                 "file": draw(st.integers(0, 11)),
                 "frac": draw(st.sampled_from([0, 0, 1, 2])),
                 "sel": draw(selections(bounds, user))})
@@ -502,6 +526,11 @@ def histories(draw, family, max_ops=12):
                 "to": draw(st.integers(0, n_fs - 1)),
                 "target_as": draw(st.sampled_from(["fileset", "fileset",
                                                    "path"])),
+                # "refusal": go for a converting move of a file the target
+                # handler cannot store, if the state offers one
+                # (with the originals at stake, or as a copy)
+                "aim": draw(st.sampled_from([None, None, None, "refusal",
+                                             "refusal", "refusal-copy"])),
                 "copy": draw(st.booleans()),
                 "convert": draw(st.sampled_from([False, False, None, True,
                                                  True, "callable", "callable",
